@@ -50,12 +50,13 @@ type callScript struct {
 	CancelAfter int  // client cancels after receiving this many messages (-1 never)
 	Deadline    bool // the handler blocks on ctx.Done(); the client uses a short deadline
 	OutMD       [2]string
+	InMD        bool // the client's context carries incoming metadata (the client is itself a handler forwarding a call)
 	ViaStream   bool // unary only: the client opens the unary method as a (non-streaming) stream, as generic proxies do
 }
 
 func (s callScript) String() string {
-	return fmt.Sprintf("%s pre=%v serverMsgs=%q mid=%v code=%d msg=%q plain=%v failAfter=%d clientMsgs=%q cancelAfter=%d deadline=%v outMD=%v viaStream=%v",
-		s.Shape, s.PreOps, s.ServerMsgs, s.MidOps, s.Code, s.Msg, s.PlainErr, s.FailAfter, s.ClientMsgs, s.CancelAfter, s.Deadline, s.OutMD, s.ViaStream)
+	return fmt.Sprintf("%s pre=%v serverMsgs=%q mid=%v code=%d msg=%q plain=%v failAfter=%d clientMsgs=%q cancelAfter=%d deadline=%v outMD=%v inMD=%v viaStream=%v",
+		s.Shape, s.PreOps, s.ServerMsgs, s.MidOps, s.Code, s.Msg, s.PlainErr, s.FailAfter, s.ClientMsgs, s.CancelAfter, s.Deadline, s.OutMD, s.InMD, s.ViaStream)
 }
 
 // ---- the one scripted server serving both transports -----------------------------------------------------------
@@ -94,9 +95,10 @@ func (s *scriptedServer) note(ctx context.Context, msg string, held any) {
 		s.held = append(s.held, held)
 	}
 	if md, ok := metadata.FromIncomingContext(ctx); ok && s.inMD == nil {
-		s.inMD = md.Get("x-client")
-		if s.inMD == nil {
-			s.inMD = []string{}
+		s.inMD = append([]string{}, md.Get("x-client")...)
+		for _, v := range md.Get("x-outer") {
+			// metadata of the call the client itself is serving (its incoming context) is not the server's business
+			s.inMD = append(s.inMD, "x-outer="+v)
 		}
 	}
 }
@@ -278,6 +280,9 @@ func runClient(cc grpc.ClientConnInterface, srv *scriptedServer, sc callScript) 
 	srv.begin(sc)
 	client := testproto.NewTestApiClient(cc)
 	ctx := context.Background()
+	if sc.InMD {
+		ctx = metadata.NewIncomingContext(ctx, metadata.Pairs("x-outer", "secret", "x-client", "from-the-outer-call"))
+	}
 	if sc.OutMD[0] != "" {
 		ctx = metadata.AppendToOutgoingContext(ctx, "x-client", sc.OutMD[0], "x-client", sc.OutMD[1])
 	}
@@ -454,6 +459,7 @@ func genScript(t *rapid.T) callScript {
 	if rapid.Bool().Draw(t, "outMD") {
 		sc.OutMD = [2]string{"c1", "c2"}
 	}
+	sc.InMD = rapid.IntRange(0, 2).Draw(t, "inMD") == 0
 	switch sc.Shape {
 	case "unary":
 		sc.ClientMsgs = []string{rapid.SampledFrom([]string{"hello", ""}).Draw(t, "req")}
